@@ -137,6 +137,9 @@ def anchor_universe() -> dict:
     types.append(td("TightInner", [fld("x", {"t": "varr", "elem": prim("uint", 8), "cap": 4, "incl": True})], sealed=False, extent_bits=40))
     types.append(td("TightOuter", [fld("a", {"t": "varr", "elem": prim("uint", 8), "cap": 4, "incl": True}), fld("b", ref("TightInner"))]))
     types.append(td("TightArr", [fld("k", prim("uint", 8)), fld("bs", {"t": "farr", "elem": ref("TightInner"), "n": 2})]))
+    # nothing but padding: the serializer has no field to write, yet its size bound and its buffer check are the same as ever
+    types.append(td("PadOnly", [{"k": "void", "bits": 16}, {"k": "void", "bits": 3}]))
+    types.append(td("PadOnlyD", [{"k": "void", "bits": 7}, {"k": "void", "bits": 64}], sealed=False, extent_bits=128))
     types.append(td("Nil", []))
     types.append(td("NilD", [], sealed=False, extent_bits=0))
     types.append(td("TailNil", [fld("x", prim("uint", 8)), fld("e", ref("Nil"))]))
